@@ -615,6 +615,11 @@ func (s *Store) Flush() error {
 	s.rateLk.Unlock()
 
 	if !s.outstandingWork() {
+		// Nothing to flush, but a writer may have started waiting after the
+		// previous flush took all the work, so still notify waiters.
+		s.rateLk.Lock()
+		s.notifyFlushed()
+		s.rateLk.Unlock()
 		return nil
 	}
 
@@ -634,13 +639,19 @@ func (s *Store) Flush() error {
 	if rate != 0 {
 		s.flushRate = rate
 	}
+	s.notifyFlushed()
+	s.rateLk.Unlock()
+
+	return nil
+}
+
+// notifyFlushed wakes all writers waiting for a flush to complete. Must be
+// called with rateLk held.
+func (s *Store) notifyFlushed() {
 	if s.flushNotice != nil {
 		close(s.flushNotice)
 		s.flushNotice = nil
 	}
-	s.rateLk.Unlock()
-
-	return nil
 }
 
 func (s *Store) Has(key []byte) (bool, error) {
